@@ -30,6 +30,33 @@ ALLOWED_GLOBALS = {"htmltools.html_dependency_render_mode"}
 EXEMPT = {(f"{CORE}:HTMLDependency.copy_to", "glob"): "directory listing only determines the order in which files are copied; copy_to returns None"}
 
 
+def _no_uids(t: str) -> str:
+    import re as _re
+    return _re.sub(r"\b\d{2,}\b", "#", t)
+
+
+def _inline_digest_source(f_: Any) -> Any:
+    """If the fragment is hashlib.<algo>(T.encode(<lossless utf codec>)).hexdigest() as an operand, the text T."""
+    o = f_.b if f_.kind == "OP" and isinstance(f_.a, tuple) and f_.a[0] == "operand" else None
+    mc = o.__dict__.get("method_call") if isinstance(o, SOpaque) else None
+    if not mc or mc.get("name") != "hexdigest" or mc.get("args") or mc.get("kwargs"):
+        return None
+    h = mc.get("recv")
+    ec = h.__dict__.get("extcall") if isinstance(h, SOpaque) else None
+    if not ec or str(ec.get("q", "")).split(".")[0] != "hashlib" or str(ec["q"]).split(".")[-1] not in ("sha1", "sha256", "sha512", "sha224", "sha384", "md5", "blake2b", "blake2s", "sha3_256") \
+            or len(ec.get("args") or []) != 1:
+        return None
+    data = ec["args"][0]
+    if not (isinstance(data, SStr) and len(data.frags) == 1 and isinstance(data.frags[0].a, tuple) and data.frags[0].a[:1] == ("str.encode",)):
+        return None
+    ea = list(data.frags[0].a[1:])
+    enc = str(ea[0]).lower().replace("_", "-") if ea else "utf-8"
+    err = str(ea[1]).lower() if len(ea) > 1 else "strict"
+    if enc not in ("utf-8", "utf8", "utf-16", "utf-32", "utf-8-sig") or err not in ("strict", "surrogatepass"):
+        return None
+    return data.frags[0].b
+
+
 def class_level_state(ctx: Ctx, rule: str, only: Any = None) -> None:
     """A list/dict/set defined in a class body and mutated through instances is shared by all of them."""
     prog = ctx.prog
@@ -235,12 +262,17 @@ def check(ctx: Ctx) -> None:
             src = args[0] if args else None
             rest = list(args[1:]) + list(((hs[0].b or {}).get("kwargs") or {}).values())
             good = all(r_ is None or isinstance(r_, (str, int, bool)) for r_ in rest)
+        else:
+            # the digest written out (directly or through a new helper): hashlib.<algo>(<markup>.encode(<utf codec>)).hexdigest()
+            ops = [f_ for f_ in frs if f_.kind != "LIT"]
+            src = _inline_digest_source(ops[0]) if len(ops) == 1 else None
+            good = src is not None
         if good:
             c = src.frags[0] if isinstance(src, SStr) and len(src.frags) == 1 and src.frags[0].kind == "OP" else None
             good = c is not None and c.a == ("call", "TagList.get_html_string") and isinstance(c.b.get("recv"), SNew) and c.b["recv"] is v.kwargs.get("head")
         ctx.check(bool(good) and not extra, "C18.name", "head_content's name = constant prefix + hash_deterministic(rendered markup of the same payload)", where,
-                  f"name = {short(nm)} (path {extra})",
-                  f"the name given to a head_content payload is {short(nm)} (conditions {extra}): not a function of the rendered content only - equal-looking payloads "
+                  f"name = {_no_uids(short(nm))} (path {extra})",
+                  f"the name given to a head_content payload is {_no_uids(short(nm))} (conditions {extra}): not a function of the rendered content only - equal-looking payloads "
                   f"can be merged or the name depends on what was created before", witness="head_content('<b>') then head_content(HTML('<b>')) in one process")
     hd = prog.function(UTIL, "hash_deterministic")
     cfg2 = Config()
